@@ -17,6 +17,7 @@ PART_DESCS = [
     [("position", "d"), ("mass", "d"), ("identity", "i")],
     [("family", "b"), ("position", "d"), ("identity", "i"), ("velocity", "d"), ("tag", "b"), ("birth_time", "d")],
     [("identity", "i"), ("mass", "d")],
+    [("position", "d"), ("mass", "i"), ("identity", "i"), ("velocity", "b")],      # dimensional variables stored as integers / bytes: scaled all the same
 ]
 UNITS = [(2.0, 3.0, 5.0), (0.5, 8.0, 0.25), (1.66e-24, 3.0857e18, 3.1557e13), (7.0, 11.0, 13.0)]
 INFIX = {"B_left": "B_{c}_left", "B_right": "B_{c}_right"}
@@ -128,6 +129,9 @@ def add_requests(rng, cfg, tier):
         add(dict(NOREQ, lv=[1, L - 1]), kind="level", form="lt", k=L)
         add(dict(NOREQ, lv=[2, L]), kind="level", form="between", a=1, b=L + 1)
         add(dict(NOREQ, lv=[2, 2]), kind="level", form="eq", k=2)
+    if L >= 2:
+        # a predicate named "level" under the particle group is no statement about the mesh
+        add(dict(NOREQ, lv=[1, L - 1]), kind="level", form="lt", k=L, partlevel=1)
     if L >= 3:
         # predicates with a gap: the tree is truncated at the highest accepted level, the rejected level in between is left out
         add(dict(NOREQ, lv=[1, L, L - 1]), kind="level", form="ne", k=L - 1)
